@@ -210,7 +210,7 @@ Lemma names_tables_ok : forallb names_ok names_rows && names_complete names_rows
 Proof. vm_compute. reflexivity. Qed.
 
 Theorem names_exposed : forall n, In n names_rows ->
-  (forall d, In d (doc_names (nm_plat n)) -> In d (nm_dir n)) /\
+  (forall d, In d (doc_names (nm_plat n)) -> In d (nm_all n)) /\
   (forall d, In d (doc_methods (nm_plat n)) -> In d (nm_methods n)) /\
   (forall a, In a (nm_all n) -> In a (nm_dir n)).
 Proof.
